@@ -237,7 +237,12 @@ class World:
                              f"scope is not effectively cancelled (last seen cancelled at "
                              f"{self.last_eff.get(task)})")
                 se = self.since_eff.get(task)
-                start = enter if (eff_enter or se is None) else max(enter, se[0])
+                if eff_enter:
+                    start = enter
+                elif se is None:
+                    start = now      # became effectively cancelled after this cycle's monitor pass: latency < 1 cycle
+                else:
+                    start = max(enter, se[0])
                 lat = now - start
                 self.latencies.append(lat)
                 if now > enter:
